@@ -176,6 +176,8 @@ def receivePushPromiseKnown (sid promised : Int) (pushedHeaders : List Header) :
     let f ← refusePushedStream promised
     pure ([f], [])
   | some (frames, streamEvents) =>
+    -- closed streams are forgotten here as well (fix: commit), or promised-and-closed streams pile up
+    let _ ← openInboundStreams
     beginNewStream promised false
     let _ ← withStream promised (Stream.remotelyPushed pushedHeaders)
     pure (frames, streamEvents)
